@@ -71,12 +71,14 @@ QuiescentDiskFails(o) ==
     LET r == Recover(DiskOfJson(o.disk), sc.n) IN
     Fail(r.ok /\ r.idx = o.idx, "C20:decode-equals-history")
 
-Init == l = 1 /\ s = ConcInit(1, EmptyIdx, {}, 1, <<>>, <<>>) /\ sc = [sid |-> "", sched |-> "", threads |-> <<>>, n |-> 1, plant |-> <<>>]
+Init == l = 1 /\ s = ConcInit(1, EmptyIdx, {}, 1, <<>>, <<>>) /\ sc = [sid |-> "", sched |-> "", threads |-> <<>>, n |-> 1, plant |-> <<>>, stgleft |-> FALSE]
         /\ lobs = [has_idx |-> FALSE] /\ oseen = <<>> /\ oopi = <<>> /\ failed = FALSE
 
 OnReset == /\ Line.ev = "reset"
            /\ sc' = [sid |-> Line.sid, sched |-> Line.sched, threads |-> Line.threads, n |-> Line.cfg.n,
-                     plant |-> [i \in 1..Len(Line.plant) |-> Line.plant[i].c]]
+                     plant |-> [i \in 1..Len(Line.plant) |-> Line.plant[i].c],
+                     \* a planted staging leftover stays unless a clean-up ran
+                     stgleft |-> \E i \in 1..Len(Line.plant) : "kind" \in DOMAIN Line.plant[i] /\ Line.plant[i].kind = "staging"]
            /\ UNCHANGED <<s, lobs, oseen, oopi, failed>>
 
 OnInit == /\ Line.ev = "init"
@@ -156,7 +158,7 @@ OnEnd == /\ Line.ev = "end"
                 Fail(\A t \in 1..NT : oopi[t] = Len(sc.threads[t]) + 1, "C15:call-never-returned"),
                 \* C07 at quiescence of an error-free program (planted orphans may legitimately remain if no clean-up ran)
                 Fail(lobs.has_idx /\ SeqToSet(lobs.cas) \ SeqToSet(sc.plant) = Live(lobs.idx) \ SeqToSet(sc.plant), "C07:cas-listing-at-quiescence"),
-                Fail(lobs.stg = 0, "C07:staging-at-quiescence"),
+                Fail(lobs.stg = 0 \/ (sc.stgleft /\ lobs.stg = 1), "C07:staging-at-quiescence"),
                 Fail(lobs.has_intents /\ \A k \in Keys : lobs.intents[k] = Absent, "C07:intent-left"),
                 QuiescentDiskFails(lobs),
                 Fail(AllDone(s), "DRIFT:model-not-done")
